@@ -672,6 +672,29 @@ def handleConfig : List String → Option String
   | _ => none
 
 
+/-- `cfgepochs <n> <pop_sizes> <migration_rates> <setOrder: names, comma separated|-> <count>` (input syntax of `config`) →
+`axis=<names> <epoch> <epoch> …`, one token `start,stop|sizes|row;row;…` per epoch (exact rationals, `inf` for an open end;
+`bad-request` unless `setOrder` enumerates the unsampled populations exactly once each): the first `count` epochs
+`epochsUpTo {} (EndToEnd.toEvents I) count` of the demography model (default options: both `DiscretizedRateChange` repairs
+present, pinned `PopulationSplit` orientation -- neither kind of event occurs in a translated input) applied to the
+TRANSLATION of the named input, each read in deme-AXIS order by `EndToEnd.tableOfEpoch`. -/
+def handleCfgEpochs : List String → Option String
+  | [n, sizes, mig, setOrder, count] => do
+    let n ← parseCfgN? n
+    let sizes ← parseCfgSizes? sizes
+    let mig ← parseCfgMig? mig
+    let setOrder ← parseList? parseCfgName? setOrder
+    let count ← count.toNat?
+    let I : Config.Input :=
+      { n := n, sizes := Config.normaliseSizes sizes, mig := Config.normaliseMig mig, setOrder := setOrder }
+    if !Config.validSetOrder I then none else
+    let eps := epochsUpTo {} (EndToEnd.toEvents I) count
+    let showEp := fun (e : Epoch) =>
+      let (sz, mg) := EndToEnd.tableOfEpoch I e
+      s!"{showRat e.start},{showInfRat e.stop}|{showListOr showRat "," sz}|{showListOr (showListOr showRat ",") ";" mg}"
+    return s!"axis={showListOr id "," (Config.axis I)} {" ".intercalate (eps.map showEp)}"
+  | _ => none
+
 /-! ## share command (state-space sharing in `Inference.get_coal`, C17 / C19) -/
 
 /-- `<L|B>;<pop=n,…>;<loci>;<n_unlinked>;<recombination rate>;<model class>;<model parameters q,…|->` -/
@@ -988,6 +1011,7 @@ def handle (c : Ctx) (line : String) : Ctx × String :=
     | some ans => (c, ans)
     | none => bad
   | "config" :: toks => match handleConfig toks with | some ans => (c, ans) | none => bad
+  | "cfgepochs" :: toks => (c, (handleCfgEpochs toks).getD "bad-request")
   | "validate" :: toks =>
     match handleValidate toks with
     | some ans => (c, ans)
